@@ -413,6 +413,8 @@ inductive ResErr where
   | badConstraint
   | badVersion
   | incompatible
+  /-- an Update of the Lock was rejected (409): somebody else wrote the Lock after it was read -/
+  | conflict
   deriving DecidableEq, Repr
 
 structure ResOut where
@@ -420,7 +422,8 @@ structure ResOut where
   installed : Int
   invalid : Int
   err : ResErr
-  /-- lock.Packages after the call -/
+  /-- the Lock's packages as stored in the API server when the call returns (= after its last
+  API call; without other writers: lock.Packages after the call) -/
   lock : List Pkg
   deriving Repr
 
@@ -501,6 +504,76 @@ def resolveG (reinit : Bool) (o : Oracle) (upg : Bool) (lock : List Pkg) (self :
 
 /-- Resolve as repaired by fixes/D21.diff -/
 def resolve (o : Oracle) (upg : Bool) (lock : List Pkg) (self : Pkg) : ResOut := resolveG true o upg lock self
+
+/-! ## Resolve next to other writers of the Lock
+
+The Lock is one shared object: every active revision adds / removes its own entry, and the lock
+reconciler writes its status. Between two consecutive API calls of one Resolve another writer
+may therefore have replaced the stored packages. Such a write also moves the resourceVersion, so
+the next *Update* Resolve sends with the resourceVersion it read is rejected with a conflict:
+the conflict is the consequence of the interference, not an independent fault. A *Get* simply
+returns what the other writer stored. -/
+
+/-- What other writers did to the Lock right before each of Resolve's API calls that follow its
+first Get: `none` = nobody wrote; `some w` = the stored packages are now `w` and the
+resourceVersion moved (also when `w` equals the old contents, e.g. a status update). Writes before
+a call that Resolve does not make on its path are not consumed. -/
+structure Interf where
+  /-- before the Get of RemoveSelf -/
+  rmGet : Option (List Pkg) := none
+  /-- between the Get and the Update of RemoveSelf -/
+  rmUpd : Option (List Pkg) := none
+  /-- between RemoveSelf and the Get that refreshes the lock -/
+  refresh : Option (List Pkg) := none
+  /-- between the last Get of the lock and the Update that adds the revision to it -/
+  upd : Option (List Pkg) := none
+  deriving Repr
+
+/-- nobody else writes -/
+def Interf.quiet : Interf := {}
+
+/-- The part of Resolve after the DAG has been built from the lock as last read (`lock1`), next to
+a writer that may have stored `upd` before the Update that adds the revision.
+
+`retry = false` is the code as it is: the Update fails with a conflict, Resolve returns that
+error (found = number of declared dependencies, nothing installed) and the other writer's
+contents stay. `retry = true` is the variant that wraps the Update in `retry.RetryOnConflict`
+(re-read the lock, append the revision unless it is there, update again — no further writer)
+and then carries on with the DAG and implied list built from `lock1`. -/
+def resolveTailI (retry : Bool) (o : Oracle) (upg : Bool) (self : Pkg) (lock1 : List Pkg) (d : Dag)
+    (implied : List Dep) (upd : Option (List Pkg)) : ResOut :=
+  if lock1.any (fun lp => lp.name == self.name) then resolveTail o upg self lock1 d implied
+  else
+    match upd with
+    | none => resolveTail o upg self lock1 d implied
+    | some w =>
+      if retry then
+        { resolveTail o upg self lock1 d implied with
+          lock := if w.any (fun lp => lp.name == self.name) then w else w ++ [self] }
+      else ⟨self.deps.length, 0, 0, .conflict, w⟩
+
+/-- Resolve (with fixes/D21.diff) for an active revision, next to the other writers `env`.
+API calls: Get; if the lock holds this revision's entry from before it moved to another
+repository: RemoveSelf (Get; Update when an entry with the revision's name is there) and a
+refreshing Get, Init again; if the revision is not in the lock as last read: Update. -/
+def resolveI (retry : Bool) (o : Oracle) (upg : Bool) (lock : List Pkg) (self : Pkg) (env : Interf) : ResOut :=
+  match init o upg lock with
+  | .error _ => ⟨self.deps.length, 0, 0, .initDag, lock⟩
+  | .ok (d0, implied0) =>
+    if lock.any (movedEntry self) then
+      let l2 := env.rmGet.getD lock
+      match (if l2.any (fun lp => lp.name == self.name) then env.rmUpd else none) with
+      | some w => ⟨self.deps.length, 0, 0, .conflict, w⟩
+      | none =>
+        let l4 := env.refresh.getD (removeSelf l2 self.name)
+        match init o upg l4 with
+        | .error _ => ⟨self.deps.length, 0, 0, .initDag, l4⟩
+        | .ok (d, implied) => resolveTailI retry o upg self l4 d implied env.upd
+    else resolveTailI retry o upg self lock d0 implied0 env.upd
+
+/-- the lock contents Resolve's checks run on: what its last Get returned -/
+def lastRead (lock : List Pkg) (self : Pkg) (env : Interf) : List Pkg :=
+  if lock.any (movedEntry self) then env.refresh.getD (removeSelf (env.rmGet.getD lock) self.name) else lock
 
 /-! ## Lock reconciler (resolver/reconciler.go), decision skeleton -/
 
@@ -585,6 +658,21 @@ structure LockWF (lock : List Pkg) (rev : Pkg) : Prop where
   names : (lock.map (·.name)).Nodup
   own : ∀ p ∈ lock, p.source = rev.source → p.name = rev.name ∧ p.deps = rev.deps
   untyped : ∀ p ∈ lock, p.name = rev.name → p.typed = false
+
+/-- the entries of `l` that concern the revision `rev` are its own: an entry is recorded under
+`rev`'s source iff it carries `rev`'s name, and then with `rev`'s dependencies -/
+structure OwnEntry (l : List Pkg) (rev : Pkg) : Prop where
+  own : ∀ p ∈ l, p.source = rev.source → p.name = rev.name ∧ p.deps = rev.deps
+  named : ∀ q ∈ l, q.name = rev.name → q.source = rev.source
+
+/-- what the other writers of the Lock are assumed to respect (only for the writes Resolve reads
+back; the writes that make one of its Updates conflict are arbitrary): the lock they leave is
+well-formed with respect to `rev`, and they do not put back the stale entry (`rev`'s name under
+another source) that RemoveSelf has just removed — entries named like a revision are written by
+that revision's own Resolve only -/
+structure EnvWF (env : Interf) (rev : Pkg) : Prop where
+  rmGet : ∀ w, env.rmGet = some w → LockWF w rev
+  refresh : ∀ w, env.refresh = some w → OwnEntry w rev
 
 /-- the version found in the lock for a dependency is what its constraint asks for:
 the pinned digest, or a semantic version admitted by the (parsable) constraint -/
